@@ -135,6 +135,52 @@ class Prov:
             self._mut_sites[body.id] = m
         return m
 
+    def closure_mut_sites(self, body, local):
+        """calls INSIDE closures created in `body` (and closures nested in those) that receive a `&mut` reborrow of the captured
+        `local`: list of (closure body, bb, term, argindex).  `acc.insert(x)` inside `for_each(|x| ..)` mutates the captured `acc`."""
+        key = (body.id, local)
+        got = self._closure_mut.get(key) if hasattr(self, "_closure_mut") else None
+        if not hasattr(self, "_closure_mut"):
+            self._closure_mut = {}
+        if got is None:
+            got = [x for x in self._mut_targets(body, lambda pl: pl.local == local, 0) if x[0] is not body]
+            self._closure_mut[key] = got
+        return got
+
+    def _mut_targets(self, body, pred, depth):
+        if depth > 4:
+            return []
+        tmp = set()
+        alias = set()  # `_6 = (*_1).upvar` : a copy of the captured reference
+        for pos, s in body.stmts():
+            if s.k == "assign" and s.rv["k"] == "use" and s.place.is_local() and s.rv["op"].place is not None and pred(s.rv["op"].place):
+                alias.add(s.place.local)
+        for pos, s in body.stmts():
+            if s.k == "assign" and s.rv["k"] == "ref" and s.rv["mut"] and s.place.is_local() and (pred(s.rv["place"]) or s.rv["place"].local in alias):
+                tmp.add(s.place.local)
+        if not tmp:
+            return []
+        res = []
+        for bi, t in body.calls():
+            for ai, a in enumerate(t.args):
+                if a.place is not None and a.place.is_local() and a.place.local in tmp:
+                    res.append((body, bi, t, ai))
+        for pos, s in body.stmts():
+            if s.k == "assign" and s.rv["k"] == "agg" and s.rv.get("agg") == "closure":
+                cb = self.prog.bodies.get(s.rv["closure"])
+                names = s.rv.get("fields", [])
+                if cb is None:
+                    continue
+                for i, o in enumerate(s.rv["ops"]):
+                    if o.place is not None and o.place.is_local() and o.place.local in tmp and i < len(names):
+                        nm = names[i]
+
+                        def up(pl, nm=nm):
+                            es = [e for e in pl.fields() if e != "*"]
+                            return pl.local == 1 and bool(es) and es[0][0] == "f" and es[0][1] == nm and es[0][2].startswith("closure:")
+                        res += self._mut_targets(cb, up, depth + 1)
+        return res
+
     # ------------------------------------------------------------ public API
     def of_operand(self, body, op, path=(), def_filter=None):
         out = set()
@@ -240,6 +286,16 @@ class Prov:
                 if aj == ai:
                     continue
                 self._operand(body, a, (), ctx, out, seen)
+        # ... and by calls inside closures that captured the local mutably
+        for cb, bi, t, ai in (self.closure_mut_sites(body, local) if self.mutflow else ()):
+            c = t.callee
+            out.add(("mutcall", c.name, cb.id, bi))
+            if c.method in FILTER_LIKE and c.method != "and_modify":
+                continue
+            for aj, a in enumerate(t.args):
+                if aj == ai:
+                    continue
+                self._operand(cb, a, (), (), out, seen)
 
     def _assign(self, body, pos, s, path, ctx, out, seen):
         # partial definition  L.f = v : only relevant if the path goes through f (or is empty)
@@ -558,7 +614,11 @@ class Prov:
                 pass
             if m in ("reduce",):
                 self._operand(body, t.args[0], (("item",),) + tuple(p), ctx, out, seen)
-            if not got_closure or m in ("map_err", "or_else", "unwrap_or_else", "ok_or_else", "inspect", "inspect_err"):
+            if path and path[0][0] == "errval" and m in ("map", "and_then", "map_or", "inspect"):
+                # the error alternative of the receiver passes through unchanged
+                self._operand(body, t.args[0], path, ctx, out, seen)
+            fn_item = any(self._is_fn_item(body, a) for a in t.args[1:])
+            if not got_closure or fn_item or m in ("map_err", "or_else", "unwrap_or_else", "ok_or_else", "inspect", "inspect_err"):
                 # the closure only supplies the error / fallback alternative: the payload is the receiver's
                 self._operand(body, t.args[0], path, ctx, out, seen)
             return
@@ -575,6 +635,13 @@ class Prov:
             if self._closure_arg_return(body, a, (), out, seen):
                 continue
             self._operand(body, a, (), ctx, out, seen)
+
+    def _is_fn_item(self, body, op):
+        """a named function handed to an adaptor (`map(HpoTermId::from)`): it is applied to the receiver's payload, which a
+        non-inlining provenance cannot bind to the function's parameter - the receiver is followed instead"""
+        cid = self.closure_of_operand(body, op)
+        cb = self.prog.bodies.get(cid) if cid is not None else None
+        return cb is not None and cb.kind != "Closure"
 
     def _closure_arg_return(self, body, op, path, out, seen):
         """if `op` is a closure (or fn item) value, add what it returns; True if it was one"""
